@@ -77,7 +77,7 @@ def run(ctx):
     npairs = 0
     for rep in range(ctx.budget(25, 400)):
         w = rng.choice([1, 1, 2, 4, 8, 16, 32])
-        L = rng.choice([2, 2, 3, 4])
+        L = rng.choice([2, 2, 3, 4, 9, 10])          # also codes of more than 8 words
         n = (64 * L) // w - rng.choice([0, 0, 1]) * (1 if w < 64 else 0)
         if (n * w + 63) // 64 != L:
             n = (64 * L) // w
@@ -186,6 +186,11 @@ def run(ctx):
         ctx.count("batch_container_" + cont)
         enc = graph.encode_states(G.in_container(cont, batch))
         hs = [int(h) for h in graph.hasher.make_hashes(enc).tolist()]
+        # the hash of a state is a function of the state (and the seed) alone: hashed by itself it gets the hash it got inside the batch
+        alone = [int(graph.hasher.make_hashes(graph.encode_states(torch.tensor([st_], dtype=torch.int64)))[0]) for st_ in batch[:4]]
+        if alone != hs[: len(alone)]:
+            ctx.violation("property_fails", "a state hashes differently alone than inside a batch (equal states would be kept twice, the seen-state filter would miss them)",
+                          {"class": "batch_dependent_hash", "graph": gd, "config": cfgd, "batch": batch}, True)
         if cont != "list":
             hs64 = [int(h) for h in graph.hasher.make_hashes(graph.encode_states(torch.tensor(batch, dtype=torch.int64))).tolist()]
             if hs64 != hs:
